@@ -706,10 +706,12 @@ func (s *Netceptor) RemoveLocalServiceAdvertisement(service string) error {
 	s.serviceAdsLock.Lock()
 	defer s.serviceAdsLock.Unlock()
 	n, ok := s.serviceAdsReceived[s.nodeID]
-	connType := n[service].ConnType
-	if ok {
-		delete(n, service)
+	if !ok || n[service] == nil {
+		// Not advertised (any more), e.g. the listener is being closed a second time
+		return nil
 	}
+	connType := n[service].ConnType
+	delete(n, service)
 	sa := &serviceAdvertisementFull{
 		ServiceAdvertisement: &ServiceAdvertisement{
 			NodeID:   s.nodeID,
